@@ -30,7 +30,7 @@ PROPS = {
     "C05": {"families": ["conform", "witness", "slowop", "regress", "core", "prio", "faults", "health"],
             "nontrivial_rule": "two or more successful acquisitions (terms) in the trace",
             "mc": ["MC_Core2", "MC_Prio"]},
-    "C06": {"families": ["vacancy", "faults", "stop"],
+    "C06": {"families": ["vacancy", "regress", "faults", "stop"],
             "nontrivial_rule": "the record becomes vacant (delete, expiry) while another instance runs",
             "mc": ["MC_Vacancy", "MC_VacancyFault", "MC_Faults"]},
     "C07": {"families": ["conform", "witness", "regress", "core", "stop"],
